@@ -88,13 +88,20 @@ impl NormalFormQuery {
             // PERF: better criterion for using top_n
             // PERF: top_n for multiple columns?
             // TODO: efficient PERF top_n for null or constant vec (construct indices of size min(ranking.len(), limit))
+            // TODO: nullable top_n is only implemented for types with a fused representation. Others (e.g. NullableU8)
+            // take the sort path. Could upcast to u64, add corresponding fused types, or add nullable top_n.
+            let top_n_supported = !ranking.is_nullable()
+                || matches!(
+                    ranking.tag,
+                    EncodingType::NullableStr | EncodingType::NullableI64 | EncodingType::NullableF64
+                );
             let indices = if limit > 0
                 && limit < partition_range.len() / 2
                 && self.order_by.len() == 1
                 && !ranking.is_constant()
+                && top_n_supported
             {
                 let ranking = if ranking.is_nullable() {
-                    // TODO: not implemented for all types (e.g. NullableU8). Need to upcast to u64, add corresponding fused types, or add nullable top_n
                     planner.fuse_nulls(ranking)
                 } else {
                     ranking
